@@ -37,6 +37,7 @@ type vecPolicy struct {
 	quote byte
 	comma bool
 	trim  bool
+	long  int // > 0: every boundary gets that many characters of white space
 	canon gen.Canon
 	// recording
 	mayEmpty []bool
@@ -49,6 +50,12 @@ func (v *vecPolicy) WS(prev, next string, mayBeEmpty bool) string {
 	choice, ok := v.vals[i]
 	if !ok {
 		choice = v.all
+	}
+	if v.long > 0 {
+		// more white space than any window a tokeniser might look through
+		b := []byte(strings.Repeat(" ", v.long))
+		b[v.long/2] = " \t\n\r"[i%4]
+		return string(b)
 	}
 	if choice < 0 {
 		return v.canon.WS(prev, next, mayBeEmpty)
@@ -158,6 +165,9 @@ func c14Templates() map[string][]gen.Node {
 		"interpolation":         e(&gen.EInterp{Parts: []gen.Expr{&gen.EStr{S: "a "}, bin("+", nm("n"), num(1)), &gen.EStr{S: " b "}, nm("s")}}),
 		"group":                 e(bin("*", &gen.EGroup{X: bin("+", num(1), num(2))}, num(3))),
 		"strings":               e(bin("~", str("it"), bin("~", str("say \"hi\""), str("plain")))),
+		// a backslash is a character like any other in either kind of quotes: there are no escape sequences
+		"backslash-strings": {tx("["), pr(bin("~", str("C:\\temp\\new"), bin("~", str("a\\nb"), bin("~", str("\\"), bin("~", str("\\\\"), str("t\\r\\x41\\u0041\\0")))))), tx("]["), pr(str("x\\")), tx("]["),
+			pr(&gen.EInterp{Parts: []gen.Expr{&gen.EStr{S: "i\\t"}, nm("n"), &gen.EStr{S: "\\n"}}}), tx("]")},
 		// a '#' that opens no interpolation is a character like any other, whichever quotes surround it
 		"hash-sign-strings": {tx("["), pr(bin("~", str("/issues#"), bin("~", str("#"), bin("~", str("a#b"), str("##"))))), pr(nm("n")), tx("]["), pr(str("#")), tx("\" t=\""), pr(str("x#")), tx("\"]["),
 			pr(&gen.EInterp{Parts: []gen.Expr{&gen.EStr{S: "x#"}, nm("n"), &gen.EStr{S: "#"}}}), tx("]")},
@@ -213,7 +223,7 @@ func (p *c14) Init(tier string, seed int64) {
 			}
 		}
 		nw := len(c14WS)
-		u.nVariants = B*nw + len(u.pairs)*nw*nw + nw + 6
+		u.nVariants = B*nw + len(u.pairs)*nw*nw + nw + 9
 		p.units = append(p.units, u)
 		p.offs = append(p.offs, p.nEnum)
 		p.nEnum += u.nVariants
@@ -303,6 +313,14 @@ func (u *c14unit) variant(j int) (*vecPolicy, string) {
 		return &vecPolicy{all: 0, quote: '"', comma: true, trim: true}, "tight + double quotes + trailing commas + trim markers"
 	case 4:
 		return &vecPolicy{all: 3, comma: true}, "newlines + trailing commas"
+	}
+	switch j {
+	case 6:
+		return &vecPolicy{all: -1, long: 1100}, "1100 characters of white space at every boundary"
+	case 7:
+		return &vecPolicy{all: -1, long: 4200, quote: '"'}, "4200 characters of white space at every boundary + double quotes"
+	case 8:
+		return &vecPolicy{all: -1, long: 66000}, "66000 characters of white space at every boundary"
 	}
 	return &vecPolicy{all: 4, quote: '"'}, "CRLF + double quotes"
 }
